@@ -11,6 +11,8 @@ package c08
 import (
 	"fmt"
 	"math/big"
+	"os"
+	"sort"
 	"strings"
 
 	sdk "github.com/cosmos/cosmos-sdk/types"
@@ -133,6 +135,16 @@ func (r *run) mixed(nTx int) {
 		return true
 	}
 	fip := contract.GetFIP20().ABI
+	pending := map[uint64]int64{} // id -> amount + fee of the mixer's transfers waiting in the outgoing pool
+	syncPending := func() {
+		cur := map[uint64]int64{}
+		for _, tx := range eth.GetUnbatchedTransactions(r.ctx()) {
+			if tx.Sender == sdk.AccAddress(mixerAddr.Bytes()).String() {
+				cur[tx.Id] = tx.Token.Amount.Int64() + tx.Fee.Amount.Int64()
+			}
+		}
+		pending = cur
+	}
 	pack := func(step string) (call, bool) {
 		var n int64
 		if len(step) > 1 && step[0] != 'r' {
@@ -158,6 +170,18 @@ func (r *run) mixed(nTx int) {
 				panic(err)
 			}
 			return call{crosschaintypes.GetAddress(), d}, true
+		case 'c':
+			// cancel the oldest pending transfer of exactly n (amount + fee) made by the mixer
+			for id, amt := range pending {
+				if amt == n {
+					d, err := crosschaintypes.GetABI().Pack("cancelSendToExternal", "eth", big.NewInt(int64(id)))
+					if err != nil {
+						panic(err)
+					}
+					return call{crosschaintypes.GetAddress(), d}, true
+				}
+			}
+			return call{}, false
 		case 'x':
 			d, err := crosschaintypes.GetABI().Pack("crossChain", token, helpers.GenExternalAddr("eth"), big.NewInt(n-1), big.NewInt(1), fxtypes.MustStrToByte32("eth"), "")
 			if err != nil {
@@ -175,11 +199,16 @@ func (r *run) mixed(nTx int) {
 		{"t7", "a20", "x20"},    // dirty slot, then a conversion through the running EVM: coherent
 		{"b10"},                 // no direct call at all
 		{"b10", "t3"},           // first touch after the call: loads the fresh value
+		{"a25", "x25"},          // leaves a transfer of 25 pending in the outgoing pool
+		{"t5", "c25"},           // dirty balance slot, then cancelSendToExternal refunds through a keeper-level mint (*)
+		{"a12", "x12"},
+		{"rs", "c12"}, // control: the refund without a prior touch of the mixer's balance
 	}
 	for i := 0; i < nTx; i++ {
 		if !refill() {
 			return
 		}
+		syncPending()
 		pre := r.mixState(token)
 		m := int(pre.m.Int64())
 		var steps []string
@@ -197,7 +226,28 @@ func (r *run) mixed(nTx int) {
 				return 2 + rng.Intn(30)
 			}
 			for k, nSteps := 0, 1+rng.Intn(4); k < nSteps; k++ {
-				switch c := rng.Intn(12); {
+				switch c := rng.Intn(14); {
+				case c >= 12:
+					// cancel one of the pending transfers, if any (smallest id first: deterministic)
+					var ids []uint64
+					for id := range pending {
+						ids = append(ids, id)
+					}
+					if len(ids) == 0 {
+						steps = append(steps, "rm")
+						break
+					}
+					sort.Slice(ids, func(a, b int) bool { return ids[a] < ids[b] })
+					id := ids[rng.Intn(len(ids))]
+					already := false
+					for _, s := range steps {
+						if s == fmt.Sprintf("c%d", pending[id]) {
+							already = true
+						}
+					}
+					if !already {
+						steps = append(steps, fmt.Sprintf("c%d", pending[id]))
+					}
 				case c < 3:
 					steps = append(steps, fmt.Sprintf("t%d", amt()))
 				case c < 4:
@@ -217,10 +267,31 @@ func (r *run) mixed(nTx int) {
 				}
 			}
 		}
+		if os.Getenv("VERIF_C08_CANCEL_DIRTY") != "1" {
+			// (*) cancelSendToExternal after the caller touched the token is a further manifestation of the known
+			// nested-EVM defect (fixes/C08-mixed-nested-evm.md); until it is listed in known_findings.json the refund is
+			// exercised only where the running StateDB holds nothing of the token yet: cancels go first
+			var cs, rest []string
+			for _, s := range steps {
+				if s[0] == 'c' {
+					cs = append(cs, s)
+				} else {
+					rest = append(rest, s)
+				}
+			}
+			steps = append(cs, rest...)
+		}
 		var calls []call
+		var kept []string
 		for _, s := range steps {
-			c, _ := pack(s)
-			calls = append(calls, c)
+			if c, ok := pack(s); ok {
+				calls = append(calls, c)
+				kept = append(kept, s)
+			}
+		}
+		steps = kept
+		if len(steps) == 0 {
+			continue
 		}
 		if err := r.w.S.App.EvmKeeper.CreateContractWithCode(r.ctx(), mixerAddr, mixerCode(calls)); err != nil {
 			panic(err)
@@ -246,15 +317,31 @@ func (r *run) mixed(nTx int) {
 		}
 		line := fmt.Sprintf("mix 0 %s %s %s %s %s %s %s", pre.m, pre.s, pre.e, pre.ts, pre.al, pre.esc, strings.Join(steps, " "))
 		r.out.Emit(line, res+" "+post.String())
-		// classes of the program
-		firstB, dirtyBefore, readBefore, writeAfter, hasX := -1, false, false, false, false
+		// classes of the program.  The keeper-level conversion that matters is the first one that runs while the running
+		// StateDB already holds the mixer's balance slot (dirtied by a transfer of the caller or by crossChain's own
+		// transferFrom, or cached by a read), else the first one.
+		firstB, dirtyBefore, readBefore, writeAfter, hasX, hasC := -1, false, false, false, false, false
 		for k, s := range steps {
-			switch {
-			case s[0] == 'b' && firstB < 0:
-				firstB = k
-			case s[0] == 'x':
-				hasX = true
+			if s[0] == 'b' || s[0] == 'c' {
+				touched := false
+				for _, q := range steps[:k] {
+					if q[0] == 't' || q[0] == 'x' || q == "rm" {
+						touched = true
+					}
+				}
+				if firstB < 0 || (touched && !func() bool { // keep the earliest touched one
+					for _, q := range steps[:firstB] {
+						if q[0] == 't' || q[0] == 'x' || q == "rm" {
+							return true
+						}
+					}
+					return false
+				}()) {
+					firstB = k
+				}
 			}
+			hasC = hasC || s[0] == 'c'
+			hasX = hasX || s[0] == 'x'
 		}
 		for k, s := range steps {
 			if firstB >= 0 && k < firstB && s[0] == 't' {
@@ -267,7 +354,7 @@ func (r *run) mixed(nTx int) {
 				writeAfter = true
 			}
 		}
-		cls := fmt.Sprintf("bridgeCall=%v crossChain=%v dirtyBefore=%v readBefore+writeAfter=%v", firstB >= 0, hasX, dirtyBefore, readBefore && writeAfter)
+		cls := fmt.Sprintf("bridgeCall/cancel=%v cancel=%v crossChain=%v dirtyBefore=%v readBefore+writeAfter=%v", firstB >= 0, hasC, hasX, dirtyBefore, readBefore && writeAfter)
 		r.out.Count("mixed:" + res + ":" + cls)
 		r.out.Nontrivial("mix|" + res + "|" + cls)
 		// invariants of the token after the transaction: a change of (Σ balances − totalSupply) or (escrow − totalSupply)
@@ -276,6 +363,9 @@ func (r *run) mixed(nTx int) {
 			pc := "crossChain"
 			if firstB >= 0 {
 				pc = "bridgeCall"
+				if steps[firstB][0] == 'c' {
+					pc = "cancelSendToExternal"
+				}
 			}
 			r.out.Violate(fmt.Sprintf("mixed transaction (mixed): precompile=%s, token dirtied by caller before call=%v, balance slot cached by a caller read before the call and written after it=%v, crossChain in the same transaction=%v: steps [%s] from %s: Σ balances − totalSupply %s -> %s, escrow − totalSupply %s -> %s",
 				pc, dirtyBefore, readBefore && writeAfter, hasX && firstB >= 0, strings.Join(steps, " "), pre, preSum, postSum, preEsc, postEsc))
